@@ -164,6 +164,56 @@ def c15(ctx):
              lambda: runner.ordered_traces(ctx, 'drv_denom.cpp', 'vdenom', INT_GROUPS, 'TraceDenom', '.den'))
 
 
+def c20(ctx):
+    ctx.assumptions += ['pointer classes: valid, null, small non-null, inside an inaccessible page on either side, last cache line of the accessible page; offsets 0..63; counts 0..3 pages; a count near SIZE_MAX is not issued (the loop would not terminate in reasonable time)',
+                        'memory unchanged is observed on the accessible page (4096 bytes compared before/after)']
+
+    def mc():
+        ctx.mc('MC_Mem', mc_cfg(['PageBytes = 8', 'N = 4', 'w = 1', 'Strategies = {"exact"}', 'MaxDepth <- MaxDepth2'],
+                                ['C20'], constraint='Bounded', view='View'), 'prefetch', workers=8)
+    _with_mc(ctx, mc, lambda: runner.lane_facts(ctx, 'drv_prefetch.cpp', 'prefetch', [0]))
+
+
+def alloc_configs(tier):
+    C = runner.configs.Config
+    ub = ['-fsanitize=alignment,null', '-fsanitize-undefined-trap-on-error']
+    c = [C('none-gcc11', []), C('none-gcc14', [], std='c++14'), C('none-gcc17', [], std='c++17'),
+         C('none-gcc20', [], std='c++20'), C('sse2-gcc11', ['SSE2']),
+         C('none-clang11', [], cxx='clang++', opt='-O2'), C('none-clang20', [], cxx='clang++', std='c++20', opt='-O2'),
+         C('none-gcc11-ubsan', [], extra=ub)]
+    if tier == 'thorough':
+        c += [C('avx2-gcc17', ['AVX2'], std='c++17', opt='-O2'), C('sse2-clang14', ['SSE2'], cxx='clang++', std='c++14'),
+              C('none-gcc14-ubsan-O2', [], std='c++14', opt='-O2', extra=ub), C('none-gcc11-O0', [], opt='-O0')]
+    return c
+
+
+def c18(ctx):
+    ctx.assumptions += [
+        'the system allocator is observed by link-time interposition while an Aligned_allocator member runs; glibc malloc (16-byte aligned) is the only system heap exercised for real, TLC explores every placement in the bounded model',
+        'histories: seeded random allocate / fill / deallocate sequences, 22 (T, A) instantiations, sizes 0..257 elements, at most 12 live blocks',
+        'undefined behaviour is observed through -fsanitize=alignment,null in one extra build per tier']
+
+    def mc():
+        sizes = '{0, 1, 3, 8, 24}'
+        for variant in ('overalloc', 'aligned', 'mm'):
+            for a in ((32, 64) if ctx.tier == 'thorough' else (32,)):
+                ctx.mc('MC_Alloc', mc_cfg(['ARENA = %d' % (224 if a == 32 else 320), 'G = 16', 'A = %d' % a, 'SIZES = ' + sizes,
+                                           'MAXLIVE = 3', 'OVERHEAD = 8', 'Variant = "%s"' % variant, 'WordInside = FALSE'],
+                                          ['C18']), 'alloc_%s_%d' % (variant, a), workers=8)
+        # vacuity guard: an offset word stored inside the user range must be caught by the model
+        r = runner.tlc.model_check('MC_Alloc', mc_cfg(['ARENA = 224', 'G = 16', 'A = 32', 'SIZES = ' + sizes, 'MAXLIVE = 2',
+                                                       'OVERHEAD = 8', 'Variant = "overalloc"', 'WordInside = TRUE'],
+                                                      ['C18']), ctx.scratch, 'alloc_guard', workers=4)
+        if r['ok']:
+            raise runner.tlc.TLCError('MC_Alloc: an offset word inside the user range was expected to violate C18 (vacuity guard)')
+        ctx.notes.append('MC_Alloc vacuity guard: offset word inside the user range violates C18 as expected')
+
+    def conf():
+        runner.ordered_traces(ctx, 'drv_alloc.cpp', 'alloc', [0], 'TraceAlloc', '.trace', cfgs=alloc_configs(ctx.tier),
+                              libs=['-Wl,--wrap=malloc,--wrap=free,--wrap=posix_memalign,--wrap=aligned_alloc'])
+    _with_mc(ctx, mc, conf)
+
+
 CHECKS = {
-    'C01': c01, 'C02': c02, 'C03': c03, 'C04': c04, 'C05': c05, 'C06': c06, 'C07': c07, 'C08': c08, 'C09': c09, 'C14': c14, 'C15': c15,
+    'C01': c01, 'C02': c02, 'C03': c03, 'C04': c04, 'C05': c05, 'C06': c06, 'C07': c07, 'C08': c08, 'C09': c09, 'C14': c14, 'C15': c15, 'C18': c18, 'C20': c20,
 }
